@@ -22,3 +22,51 @@ def make_check(oracles: Set[str], nontrivial: Callable[[Dict[str, int]], bool]):
 def frac(merged, part, cls) -> float:
     m = merged[part]
     return m["classes"].get(cls, 0) / max(1, m["evaluations"])
+
+
+def fuzz_part(prop_id: str, oracles, nontrivial):
+    """a PARTS entry running the atheris target (thorough tier only: quick budget 0)."""
+    import glob
+    import json
+    import os
+    import shutil
+    import subprocess
+    import sys
+    import tempfile
+
+    from ..common import VERIF_DIR, _new_result, derive_seed
+
+    def shard(shard, n_shards, tier, seed, budget):
+        res = _new_result()
+        d = tempfile.mkdtemp(prefix=f"pamsfuzz_{prop_id}_")
+        try:
+            os.makedirs(d + "/corpus")
+            # half of the shards start from an empty corpus, the others from a few small hand-made inputs
+            if shard % 2:
+                for i, b in enumerate([bytes([0, 0, 1] + [0, 5, 1, 1, 0, 0] * 4 + [14, 0, 21]), bytes(range(40)), bytes([3, 2, 9] + [7, 250, 0, 2, 1, 1] * 8 + [22, 1, 3])]):
+                    open(f"{d}/corpus/seed{i}", "wb").write(b)
+            cmd = [sys.executable, os.path.join(VERIF_DIR, "pbt", "fuzz_market.py"), prop_id, d + "/out", f"-runs={budget}",
+                   f"-seed={1 + derive_seed(prop_id, 'fuzz', seed, shard) % (2**31 - 2)}", "-max_len=700", "-timeout=60", f"-artifact_prefix={d}/", d + "/corpus"]
+            r = subprocess.run(cmd, capture_output=True, text=True, cwd=d)
+            stats = {"n": 0, "ops": 0, "rounds": 0, "with_fills": 0, "hashes": [], "samples": []}
+            for f in glob.glob(d + "/out/stats-*.json"):
+                stats = json.load(open(f))
+            res["evaluations"] = stats["n"]
+            res["steps"] = stats["ops"]
+            res["nontrivial_hashes"] = set(stats.get("hashes", []))
+            res["samples"] = stats.get("samples", [])[:1]
+            res["classes"] = {"fuzz_cases_with_fills": stats["with_fills"], "fuzz_rounds": stats["rounds"]}
+            cov = [l for l in r.stderr.splitlines() if " cov: " in l]
+            if cov:
+                res["extra"]["libfuzzer_last_status"] = cov[-1].strip()[:160]
+            vio = sorted(glob.glob(d + "/out/violation-*.json"))
+            if vio:
+                v = json.load(open(vio[0]))
+                res["violation"] = {"case": v["case"], "oracle": v["oracle"], "message": v["message"], "detail": v.get("detail")}
+            elif r.returncode != 0:
+                res["harness_error"] = f"fuzz target exited {r.returncode}: {r.stderr[-1500:]}"
+            return res
+        finally:
+            shutil.rmtree(d, ignore_errors=True)
+
+    return {"shard": shard, "replay": make_check(oracles, nontrivial), "budget": {"quick": 0, "thorough": 1600000}}
